@@ -96,9 +96,9 @@ func gridScheme(bc barcode.Barcode, fg, bg color.Color) (*refdec.Grid, error) {
 		for x := 0; x < g.W; x++ {
 			c := bc.At(x, y)
 			switch {
-			case c == fg:
+			case sameColor(c, fg):
 				g.Dark[y*g.W+x] = true
-			case c == bg:
+			case sameColor(c, bg):
 			default:
 				return nil, fmt.Errorf("pixel (%d,%d) = %#v is neither the foreground nor the background of the scheme", x, y, c)
 			}
@@ -317,4 +317,26 @@ func decorate(x []byte) [][]byte {
 		cat("\u200b", s), cat(s, "\u200b"), cat("\u00a0", s), cat(s, "\u00a0"), cat("\u2028", s), cat("\u200e", s), cat(s, "\u0301"),
 		cat("+", s), cat("-", s), cat("0", s), cat(s, "0"), cat("00", s),
 	}
+}
+
+// foreignDigitStrings: decimal digits of other scripts (unicode.IsDigit is true for
+// them, they are not ASCII digits), alone and mixed with ASCII digits, in runs of the
+// lengths at which digit look-aheads switch (1, 2, 4, 13, 14).
+func foreignDigitStrings() []string {
+	var out []string
+	for _, zero := range []rune{0x0660, 0x06F0, 0x0966, 0xFF10, 0x1D7CE} {
+		mk := func(n int) string {
+			rs := make([]rune, n)
+			for i := range rs {
+				rs[i] = zero + rune((i*7+1)%10)
+			}
+			return string(rs)
+		}
+		for _, n := range []int{1, 2, 4, 6, 13, 14} {
+			f := mk(n)
+			out = append(out, f, "12"+f, f+"34", "1234"+f+"56", "AB"+f, "HELLO"+f, f[:len(f)/n]+"234567890123")
+		}
+	}
+	out = append(out, "МОСКВА", "ÄÖÜ", "ÀÉÎ 123", "ΑΒΓ", "ＡＢＣ")
+	return out
 }
